@@ -91,6 +91,11 @@ fn run(op: &Op) -> (u64, usize) {
                 dg.u64(l.hash_v1(lon, lat));
                 dg.u64(l.hash_v2(lon, lat));
                 dg.u64(l.to_uniq(*h));
+                dg.u64(l.to_uniq_ivoa(*h));
+                let (h2, dx2, dy2) = l.hash_dxdy_v2(lon, lat);
+                dg.u64(h2);
+                dg.f64(dx2);
+                dg.f64(dy2);
             }
             dg.u64(nested::n_hash(*d));
         }
@@ -134,6 +139,11 @@ fn run(op: &Op) -> (u64, usize) {
             dg.u64(u64::MAX);
             for v in nested::external_edge(*d, *h, *dd).iter() {
                 dg.u64(*v);
+            }
+            if *d + *dd < 29 {
+                for v in nested::internal_edge_sorted(*d, *h, *dd).iter() {
+                    dg.u64(*v);
+                }
             }
             let st = nested::external_edge_struct(*d, *h, *dd);
             for c in [cdshealpix::compass_point::Cardinal::S, cdshealpix::compass_point::Cardinal::N] {
